@@ -68,29 +68,58 @@ class NoiseHistory(TracedMachine):
         self.total = 0
         self.kind = None
         self.mode = None
+        self.naligned = 0
+        self.narrow = False
 
     @initialize(kind=st.sampled_from(["white", "red", "red", "alpha", "alpha", "pink"]), seed=st.integers(0, 2 ** 32 - 1),
                 fs=st.sampled_from([1.0, 10.0, 100.0, 1e4, 3.7]), ratio=st.one_of(gens.loguniform(20.0, 2000.0), gens.loguniform(20.0, 2000.0),
                                                                                   gens.loguniform(3.3e4, 1e5)), span=st.floats(0.05, 1.0),
                 alpha=st.one_of(st.floats(0.01, 2.0), st.sampled_from([0.01, 1.0, 2.0])), init=st.booleans(),
-                psd=st.sampled_from([1.0, 0.01, 42.0]), mode=st.sampled_from(["series", "series", "series", "samples"]))
-    def init(self, kind, seed, fs, ratio, span, alpha, init, psd, mode):
-        self.step("init", kind=kind, seed=seed, fs=fs, ratio=ratio, span=span, alpha=alpha, init=init, psd=psd, mode=mode)
+                psd=st.sampled_from([1.0, 0.01, 42.0]), mode=st.sampled_from(["series", "series", "series", "samples"]),
+                narrow=st.one_of(st.just(0.0), st.just(0.0), gens.loguniform(1.2, 4.0)),
+                first=st.sampled_from([0, 0, 0, 4095, 4096, 4097, 8191, 8192]), first_settle=st.booleans())
+    def init(self, kind, seed, fs, ratio, span, alpha, init, psd, mode, narrow, first, first_settle):
+        self.step("init", kind=kind, seed=seed, fs=fs, ratio=ratio, span=span, alpha=alpha, init=init, psd=psd, mode=mode, narrow=narrow,
+                  first=first, first_settle=first_settle)
 
-    def do_init(self, kind, seed, fs, ratio, span, alpha, init, psd, mode):
+    def do_init(self, kind, seed, fs, ratio, span, alpha, init, psd, mode, narrow=0.0, first=0, first_settle=False):
         fmin = fs / ratio
         fmax = min(fs / 2.0, max(4.0 * fmin, span * fs / 2.0))
+        if narrow:
+            fmax = min(fs / 2.0, narrow * fmin)       # a band of less than two octaves: one to three filter sections
+        self.narrow = bool(narrow) and kind in ("alpha", "pink")
         self.p = {"fs": fs, "fmin": fmin, "fmax": fmax, "alpha": alpha, "init": init, "seed": seed, "psd": psd}
         self.kind, self.mode = kind, mode
         self.gen = make(kind, self.p)
         self.twin = make(kind, self.p)
         self.scale = float(np.sqrt(psd * fs)) if kind == "white" else None
+        if first and mode == "series":
+            # the very first request ends at (or next to) a power-of-two position of the underlying stream
+            self.do_align(first + 1, -1, first_settle)
 
     @precondition(lambda self: self.gen is not None and self.mode == "series" and self.total < 400000)
     @rule(n=st.one_of(st.sampled_from([0, 1]), st.sampled_from([0, 1, 2, 3]), st.integers(0, 50), st.integers(0, 5000), st.integers(0, 5000),
                      st.sampled_from([4095, 4096, 4097, 65535, 65536, 65537, 70000, 100000, 131073])))   # block/buffer sizes
     def series(self, n):
         self.step("series", n=n)
+
+    @precondition(lambda self: self.gen is not None and self.mode == "series" and self.total < 400000)
+    @rule(B=st.sampled_from([4096, 4096, 8192, 65536]), delta=st.sampled_from([-1, 0, 1]), settle=st.booleans())
+    def align(self, B, delta, settle):
+        self.step("align", B=B, delta=delta, settle=settle)
+
+    def do_align(self, B, delta, settle):
+        """a request that ends exactly at (or one sample around) a power-of-two position of the stream - counted from the
+        first delivered sample or from the start of the settling run"""
+        target = B + delta
+        if settle and self.p["init"] and self.kind != "white":
+            target -= int(np.ceil(2.0 * self.p["fs"] / self.p["fmin"]))
+        n = target - self.total
+        if n < 0:
+            n = (-self.total) % B + delta
+        if 0 <= n <= 200000:
+            self.naligned += 1
+            self.do_series(int(n))
 
     def do_series(self, n):
         a = np.asarray(self.gen.get_series(n))
@@ -156,6 +185,10 @@ class NoiseHistory(TracedMachine):
             labels.append("init_filter")
         if any(n > 65536 for n in self.sizes):
             labels.append("has-request>65536")
+        if self.naligned:
+            labels.append("has-aligned-request")
+        if self.narrow:
+            labels.append("narrow-band<2octaves")
         return nt, labels
 
 
